@@ -431,6 +431,7 @@ func (e *Engine) callByContract(fr *frame, ins ssa.Instruction, fn *ssa.Function
 			Goal:   implies(reach, goal),
 			Pos:    site,
 			Func:   e.rootName(),
+			Using:  cl.Using, // names of the caller's labelled hypotheses (by convention shared between the two contracts)
 		})
 	}
 	// havoc what the callee may assign (frame), then assume its ensures; old(...) in them
